@@ -55,18 +55,7 @@ func (x *Exec) evalSpecBool(fr *Frame, st, old *State, n *SpecNode, extra map[st
 		env[k] = v
 	}
 	if fr != nil {
-		// names recorded when the contracts were written, for locals that were merely renamed since
-		for oldName, cands := range x.prog.renamedLocals(fr.fn) {
-			if _, have := env[oldName]; !have {
-				// the innermost (last declared) candidate that is in scope here
-				for i := len(cands) - 1; i >= 0; i-- {
-					if v, ok := env[cands[i]]; ok {
-						env[oldName] = v
-						break
-					}
-				}
-			}
-		}
+		x.aliasEnv(fr.fn, env)
 	}
 	if old == nil {
 		old = st
@@ -1073,4 +1062,24 @@ func canonicalBound(v, temp, body string) string {
 		return temp // would capture a nested binder of the same name
 	}
 	return canon
+}
+
+// aliasEnv binds the names recorded when the contracts were written (locals.lock) for
+// locals, parameters, receivers, named results and captured variables that were merely
+// renamed since: an old name that is no longer declared is bound to the value of the
+// innermost declaration it was renamed to, in fn or in the functions enclosing it.
+func (x *Exec) aliasEnv(fn *ssa.Function, env map[string]Val) {
+	for f := fn; f != nil; f = f.Parent() {
+		for oldName, cands := range x.prog.renamedLocals(f) {
+			if _, have := env[oldName]; have {
+				continue
+			}
+			for i := len(cands) - 1; i >= 0; i-- {
+				if v, ok := env[cands[i]]; ok {
+					env[oldName] = v
+					break
+				}
+			}
+		}
+	}
 }
